@@ -5,6 +5,7 @@ usage: matrix.py <patch>[,<patch>...] <ID>[,<ID>...] [--tier quick]
 Prints, per patch, which checks report a violation that is not a listed known finding."""
 import json, os, re, subprocess, sys, shutil
 V = "/verif"; S = "/tmp/mm"
+PROFS = tuple(os.environ.get("MATRIX_PROFILES", "checked,fast").split(","))
 def sh(cmd, **kw): return subprocess.run(cmd, shell=True, text=True, stdout=subprocess.PIPE, stderr=subprocess.STDOUT, **kw)
 def setup():
     os.makedirs(S, exist_ok=True)
@@ -20,13 +21,13 @@ def known():
 def km(p, k): return re.match("^" + ".*".join(re.escape(x) for x in p.split("*")) + "$", k) is not None
 def run(ids, tier):
     res = {}
-    for prof in ("checked", "fast"):
+    for prof in PROFS:
         b = sh(f"cd {S}/mc && cargo build --offline --profile {prof}")
         if b.returncode != 0:
             return {"BUILD": b.stdout[-1500:]}
     for cid in ids:
         hit = []
-        for prof in ("checked", "fast"):
+        for prof in PROFS:
             out = f"{S}/{cid}.{prof}.json"
             r = sh(f"cd {S} && {S}/target/{prof}/mqtt-mc {cid} --tier {tier} --profile {prof} --out {out}")
             if r.returncode != 0:
